@@ -179,26 +179,53 @@ def scalars_never_aliased(check, prog):
                 yield from flat_stmts(st.body)
             else:
                 yield st
+    # the decisions in evaluation order: the operands of an `or` chain are tried
+    # left to right and stop at the first that holds
     first_len = first_scalar = None
+    pos = 0
+    scalar_stmt = None
     for i, st in enumerate(flat_stmts(fd.body)):
         test = st.test if isinstance(st, ast.If) else None
-        where = test if test is not None else st
-        for n in ast.walk(where):
-            if isinstance(n, ast.Call) and isinstance(n.func, ast.Name) and \
-                    n.func.id == 'len' and n.args and \
-                    isinstance(n.args[0], ast.Name) and n.args[0].id == arg:
-                # (`x is None or len(x)`: evaluated for every x that is not None)
-                first_len = i if first_len is None else first_len
-        if test is not None and isinstance(test, ast.Call) and \
-                isinstance(test.func, ast.Name) and test.func.id == 'isinstance' and \
-                isinstance(test.args[0], ast.Name) and test.args[0].id == arg:
-            kinds = {e.id for e in ast.walk(test.args[1]) if isinstance(e, ast.Name)}
-            returns_true = any(isinstance(r, ast.Return) and
-                               isinstance(r.value, ast.Constant) and r.value.value is True
-                               for r in st.body)
-            if {'int', 'float', 'str'} <= kinds and returns_true:
-                first_scalar = i if first_scalar is None else first_scalar
-    ok = first_scalar is not None and (first_len is None or first_scalar < first_len)
+        operands = [st] if test is None else (
+            list(test.values) if isinstance(test, ast.BoolOp) and
+            isinstance(test.op, ast.Or) else [test])
+        returns_true = test is not None and any(
+            isinstance(r, ast.Return) and isinstance(r.value, ast.Constant) and
+            r.value.value is True for r in st.body)
+        for op_ in operands:
+            pos += 1
+            for n in ast.walk(op_):
+                if isinstance(n, ast.Call) and isinstance(n.func, ast.Name) and \
+                        n.func.id == 'len' and n.args and \
+                        isinstance(n.args[0], ast.Name) and n.args[0].id == arg:
+                    # (`x is None or len(x)`: evaluated for every x that is not None)
+                    first_len = pos if first_len is None else first_len
+            if test is not None and isinstance(op_, ast.Call) and \
+                    isinstance(op_.func, ast.Name) and op_.func.id == 'isinstance' and \
+                    isinstance(op_.args[0], ast.Name) and op_.args[0].id == arg:
+                kinds = {e.id for e in ast.walk(op_.args[1]) if isinstance(e, ast.Name)}
+                if {'int', 'float', 'str'} <= kinds and returns_true and \
+                        first_scalar is None:
+                    first_scalar = pos
+                    scalar_stmt = i
+    # ... and nothing before it answers for a scalar: an earlier test that a
+    # NumPy scalar satisfies (np.float64 is a float, but also an np.generic of size
+    # 1) decides for it first
+    early = None
+    for i, st in enumerate(flat_stmts(fd.body)):
+        if scalar_stmt is not None and i >= scalar_stmt:
+            break
+        if isinstance(st, ast.If) and any(isinstance(r, ast.Return) for b in (
+                st.body, st.orelse) for x in b for r in ast.walk(x)):
+            t_ = st.test
+            only_none = isinstance(t_, ast.Compare) and len(t_.ops) == 1 and \
+                isinstance(t_.ops[0], ast.Is) and \
+                isinstance(t_.comparators[0], ast.Constant) and \
+                t_.comparators[0].value is None
+            if not only_none:
+                early = st
+    ok = first_scalar is not None and (first_len is None or first_scalar < first_len) \
+        and early is None
     check.require(ok, 'R9-scalars-never-aliased', 'serialize.ignore_aliases',
                   'the scalar test is reached by a scalar', prog.loc(q, fd),
                   fail_detail='len(%s) is evaluated before the isinstance test: for a '
@@ -206,7 +233,10 @@ def scalars_never_aliased(check, prog):
                   'function returns None -- equal ints that happen to be one object '
                   'are written as &id001 / *id001, and the text of a reloaded object '
                   'differs from the text it was loaded from' % arg
-                  if first_scalar is not None else 'no scalar test returning True')
+                  if first_scalar is not None and early is None else (
+                      'an earlier test answers first: `if %s` (line %d)' % (
+                          ast.unparse(early.test)[:60], early.lineno)
+                      if early is not None else 'no scalar test returning True'))
 
 
 def shared_objects_aliased(check, prog):
